@@ -1335,9 +1335,118 @@ def job_run(fresh, with_stop, with_control):
             O.prove("grid:instants-carry-dt's-unit", z3.Implies(grid.N >= 1, stf["tlast_unit"] == AM.unit_idx("Time", dt.unit)), props=("C11",))
 
     tag = ("fresh" if fresh else "continuation") + (",stop" if with_stop else "") + (",control" if with_control else "")
-    return Job(f"solver.run[{tag}]", body, props, functions=[f"{Q}.run"], expect_covers=("returns",),
+    return Job(f"solver.run[{tag}]", body, props, functions=[f"{Q}.run"],
+               expect_covers=("returns", "exit:exhausted") + (("exit:break",) if with_stop else ()),
                meta=dict(family="solver-run", fresh=fresh, with_stop=with_stop, with_control=with_control,
                          thorough_only=(with_stop != with_control)))
+
+
+def job_run_order(fresh, locked_case):
+    """Order of events inside Solver.run with the REAL _compute_powertrain_variables inlined (its callees only log).
+    C16: the stop condition is evaluated exactly once per computed instant, AFTER that instant's state has been
+    computed and recorded, never at the initial instant; the loop continues iff it was false.  C14/C02/C13 call
+    order inside an instant.  Order properties do not depend on data, so logging stubs are sufficient here."""
+    props = ("C16", "C17", "C14", "C02")
+    STEPS = ["_compute_angular_position_and_speed", "_check_powertrain_is_locked",
+             "_compute_locked_powertrain_angular_speed_and_acceleration", "_compute_load_torque", "_compute_driving_torque",
+             "_compute_torque", "_compute_angular_acceleration", "_compute_force", "_compute_stress",
+             "_compute_electric_current", "_update_time_variables", "_compute_powertrain_inertia", "_time_integration"]
+
+    def body(c, O):
+        if c.concrete:
+            return
+        env, solver = make_env(c)
+        st = env.state
+        log = env.log
+        for name in STEPS:
+            def mk(nm):
+                def stub(*a, **k):
+                    log.append(("call", nm))
+                    if nm == "_check_powertrain_is_locked":
+                        solver._Solver__powertrain_is_locked = locked_case
+                return stub
+            setattr(solver, name, mk(name))
+        dt = H.mkq(c, "TimeInterval", "dt")
+        T = H.mkq(c, "TimeInterval", "T")
+        env.ghost["run_dt"] = dt
+        env.ghost["run_T"] = T
+        env.ghost["arange_facts"] = [env.fac("Time", AM.unit_idx("Time", dt.unit)) > 0, dt.si() > 0]
+        c.assume(extp(env, env.n - 1))
+        c.assume(AM.ElemRef(env, env.n - 1)._in(AM.HAS_STRESS))
+        c.assume(st["tlen"] == 0 if fresh else st["tlen"] >= 1)
+        solver._Solver__powertrain_is_locked = False
+        inst0 = ["_compute_angular_position_and_speed", "_check_powertrain_is_locked"] + \
+            (["_compute_locked_powertrain_angular_speed_and_acceleration"] if locked_case else []) + \
+            ["_compute_load_torque", "apply_rules", "_compute_driving_torque", "_compute_torque"] + \
+            ([] if locked_case else ["_compute_angular_acceleration"]) + \
+            ["_compute_force", "_compute_stress", "_compute_electric_current", "_update_time_variables"]
+        env.ghost["order_expected"] = ["update_time", "_time_integration"] + inst0 + ["stop_check"]
+        loops.LOOP_SPECS[RUN_LOOP + "/order"] = loops.LoopSpec(RUN_LOOP, lambda env_, i, entry: _order_inv(env_, i, entry), ("tlen", "tlast", "pwm"))
+        saved = loops.LOOP_SPECS[RUN_LOOP]
+        loops.LOOP_SPECS[RUN_LOOP] = loops.LOOP_SPECS[RUN_LOOP + "/order"]
+        try:
+            mc = AbsMotorControl(env)
+            stop = AbsStop(env)
+            st_, r = H.call(solver.run, time_discretization=dt, simulation_time=T, motor_control=mc, stop_condition=stop)
+        finally:
+            loops.LOOP_SPECS[RUN_LOOP] = saved
+        if st_ == "raise":
+            if isinstance(r, ValueError):
+                O.cover("raises:ValueError")
+                return
+            O.fail("order:no-unexpected-exception", props=props, note=f"{type(r).__name__}: {r}")
+            return
+        O.cover("returns")
+        g = env.ghost
+        ev = [(e[1] if e[0] == "call" else e[0]) for e in log]
+        k0 = g.get("order_entry_log", 0)
+        pre, body_ev = ev[:k0], ev[g.get("order_body_start", k0):]
+        inst = ["_compute_angular_position_and_speed", "_check_powertrain_is_locked"] + \
+            (["_compute_locked_powertrain_angular_speed_and_acceleration"] if locked_case else []) + \
+            ["_compute_load_torque", "apply_rules", "_compute_driving_torque", "_compute_torque"] + \
+            ([] if locked_case else ["_compute_angular_acceleration"]) + \
+            ["_compute_force", "_compute_stress", "_compute_electric_current", "_update_time_variables"]
+        if fresh:
+            O.prove("order:initial-instant=inertia,update_time,one-full-instant,no-stop-check",
+                    pre == ["_compute_powertrain_inertia", "update_time"] + inst, props=props, note=f"{pre}")
+        else:
+            O.prove("order:continuation-starts-with-the-inertia-only", pre == ["_compute_powertrain_inertia"], props=("C12", "C16"), note=f"{pre}")
+        ex = g.get("loop_exit")
+        if body_ev:
+            O.cover("iteration")
+            O.prove("order:iteration=update_time,integrate,one-full-instant(recorded),then-exactly-one-stop-check",
+                    body_ev == ["update_time", "_time_integration"] + inst + ["stop_check"], props=props, note=f"{body_ev}")
+            last_stop = [e for e in log if e[0] == "stop_check"]
+            if ex and ex[0] == "break":
+                O.cover("break")
+                O.prove("order:break=>the-check-was-true", last_stop[-1][1] if last_stop else False, props=("C16",))
+        else:
+            O.cover("no-iteration")
+    tag = ("fresh" if fresh else "continuation") + (",held" if locked_case else ",not-held")
+    return Job(f"solver.run-order[{tag}]", body, props + ("C12", "C13"), functions=[f"{Q}.run", f"{Q}._compute_powertrain_variables",
+                                                                           f"{Q}._compute_motor_control"],
+               expect_covers=("returns", "iteration", "break"), meta=dict(family="solver-run"))
+
+
+def _order_inv(env, i, entry):
+    """pseudo-invariant of the order job: it only observes the ghost log at the three points vcloop evaluates it
+    (entry; loop head of the arbitrary iteration; end of that iteration when the body completed without break)"""
+    g = env.ghost
+    c = sym.ctx()
+    if entry:
+        g["order_entry_log"] = len(env.log)
+        g["order_calls"] = 0
+        return {"true": z3.BoolVal(True)}
+    g["order_calls"] += 1
+    if g["order_calls"] == 1:
+        g["order_body_start"] = len(env.log)
+    elif g["order_calls"] == 2 and "order_expected" in g:
+        ev = [(e[1] if e[0] == "call" else e[0]) for e in env.log[g["order_body_start"]:]]
+        stops = [e for e in env.log[g["order_body_start"]:] if e[0] == "stop_check"]
+        c.prove_in_path("order:iteration-without-break=update_time,integrate,one-full-instant(recorded),then-exactly-one-stop-check",
+                        ev == g["order_expected"], note=f"{ev}")
+        c.prove_in_path("order:continue=>the-check-was-false", z3.Not(stops[-1][1]) if len(stops) == 1 else False)
+    return {"true": z3.BoolVal(True)}
 
 
 def _props_of(name):
@@ -1363,4 +1472,6 @@ def all_jobs(exact_tables=None):
         for with_stop in (False, True):
             for with_control in (False, True):
                 jobs.append(job_run(fresh, with_stop, with_control))
+        for held in (False, True):
+            jobs.append(job_run_order(fresh, held))
     return jobs
